@@ -988,7 +988,83 @@ func (p *prop) exec(c *acase, addr caddy.NetworkAddress) (o obs) {
 	if err != nil {
 		panic(err)
 	}
-	return p.serve(c, h)
+	o = p.serve(c, h)
+	o.extra = append(o.extra, p.probeAllowed(c, h)...)
+	return o
+}
+
+// probeAllowed asks the handler directly which Hosts / Origins it accepts, for a list of candidates
+// an over-generous default or a sloppy comparison would let in, and compares with the allowed origins
+// of the specification (oracle only; GET on a path nobody serves, so nothing can change).
+func (p *prop) probeAllowed(c *acase, h http.Handler) (fs []core.Failure) {
+	if c.remote || len(c.upg) > 0 {
+		return nil
+	}
+	sum := 0
+	for i := 0; i < len(c.listen); i++ {
+		sum += int(c.listen[i])
+	}
+	if (sum+len(c.host)+len(c.path))%3 != 0 {
+		return nil // a third of the cases
+	}
+	s := specOf(c)
+	if !s.known {
+		return nil
+	}
+	_, ahost, port, _ := specListen(c.listen, false)
+	cands := []string{"0.0.0.0:" + port, "[::]:" + port, ":" + port, "localhost:" + port, "127.0.0.1:" + port, "[::1]:" + port,
+		"localhost", "127.0.0.1", "localhost.:" + port, "ip6-localhost:" + port, "example.com", "evil.com:" + port, "",
+		net.JoinHostPort(ahost, port), strings.ToUpper(net.JoinHostPort(ahost, port)), ahost, net.JoinHostPort(ahost, "80"), "*:" + port, "*"}
+	for _, a := range s.allowed {
+		cands = append(cands, a[1], a[1]+".", "x"+a[1], a[1]+":1")
+	}
+	accepted := func(host, origin string) bool {
+		hdr := http.Header{}
+		if origin != "" {
+			hdr.Set("Origin", origin)
+		}
+		rec := httptest.NewRecorder()
+		req := mkReq("GET", host, "/c13-allowed-probe", hdr, nil)
+		func() {
+			defer func() { recover() }()
+			h.ServeHTTP(rec, req)
+		}()
+		return classifyRefusal(rec.Code, rec.Body.Bytes()) == ""
+	}
+	switch {
+	case s.specific && !c.eo:
+		for _, cand := range cands {
+			if got, want := accepted(cand, ""), contains(s.allowedHosts, cand); got != want && got {
+				fs = append(fs, core.Failure{Class: "host-gate-bypassed:probe",
+					What: fmt.Sprintf("the endpoint on %q (allowed origins %q) accepts Host %q", c.listen, s.allowedHosts, cand)})
+				return fs
+			}
+		}
+	case c.eo && (!s.specific || len(s.allowedHosts) > 0):
+		host := "x"
+		if s.specific {
+			host = s.allowedHosts[0]
+		}
+		for _, cand := range cands {
+			origin := "http://" + cand
+			u, err := url.Parse(origin)
+			if err != nil || cand == "" {
+				continue
+			}
+			want := false
+			for _, a := range s.allowed {
+				if (a[0] == "" || a[0] == "http") && a[1] == u.Host {
+					want = true
+				}
+			}
+			if got := accepted(host, origin); got && !want {
+				fs = append(fs, core.Failure{Class: "origin-gate-bypassed:probe",
+					What: fmt.Sprintf("the endpoint on %q (allowed origins %q) accepts Origin %q", c.listen, s.allowed, origin)})
+				return fs
+			}
+		}
+	}
+	return fs
 }
 
 // serve sends the case's request to h and classifies what happened.
@@ -1020,6 +1096,9 @@ func (p *prop) serve(c *acase, h http.Handler) (o obs) {
 			}
 			cs.VerifiedChains = append(cs.VerifiedChains, certs)
 		}
+		// what the client PRESENTED is not what was VERIFIED: offer every certificate there, listed
+		// ones included; only VerifiedChains may count
+		cs.PeerCertificates = append(cs.PeerCertificates, p.certs...)
 	}
 	req := mkReq(c.method, c.host, c.path, hdr, cs)
 	rec := httptest.NewRecorder()
